@@ -217,6 +217,7 @@ def build_pool():
     add('MPRY2', G.MPRYGate(2), 'oq')
     add('MPRZ2', G.MPRZGate(2), 'oq')
     add('ACP33', G.ArbitraryCPhaseGate([3, 3]), 'oq')
+    add('ACP23', G.ArbitraryCPhaseGate([2, 3]), 'oq')
     add('RSU3_1', G.RSU3Gate(1), 'oq')
     # composed gates
     add('C(RZ)', G.ControlledGate(G.RZGate()), 'composed', 'exact')
@@ -529,11 +530,6 @@ def x_is_unitary(G) -> bool:
     one, zero = (Fraction(1), Fraction(0)), (Fraction(0), Fraction(0))
     return all(P[i][j] == (one if i == j else zero)
                for i in range(n) for j in range(n))
-
-
-def x_to_np(M):
-    return np.array([[complex(float(a), float(b)) for a, b in row]
-                     for row in M])
 
 
 def exact_gates(circuit, x):
@@ -1672,7 +1668,22 @@ def section_select(R: Run, ncases: int):
                                      b'qfactor', Minimization, QFactor])
                 mtxt = 'other'
             chosen.clear()
-            tgt = UnitaryMatrix(np.eye(circuit.dim), list(radixes), False)
+            # one case in four: a target of the wrong dimension (safe here:
+            # no optimiser runs, multi_start_instantiate_inplace is a recorder)
+            trad = list(radixes)
+            if rng.random() < 0.25:
+                trad = rng.choice([trad + [2], trad[:-1] or [3],
+                                   [3] * len(trad) if 2 in trad
+                                   else [2] * len(trad)])
+            tdim = math.prod(trad)
+            tk = rng.choice('USY')
+            if tk == 'U':
+                tgt = UnitaryMatrix(np.eye(tdim), trad, False)
+            else:
+                from bqskit.qis.state.state import StateVector
+                from bqskit.qis.state.system import StateSystem
+                e0 = StateVector(np.eye(tdim)[:, 0], trad, False)
+                tgt = e0 if tk == 'S' else StateSystem({e0: e0})
             p0 = circuit.params.copy()
             try:
                 with warnings.catch_warnings():
@@ -1710,12 +1721,16 @@ def section_select(R: Run, ncases: int):
                 want = 'given' if Given.cap else 'err value'
             else:
                 want = 'err type'
-            lines.append(f'select {caps} | {mtxt}')
+            if not want.startswith('err') and tdim != circuit.dim:
+                want = 'err value'      # documented ValueError (e23425b)
+                ck.bump('selection_wrong_dimension_targets', tk)
+            lines.append(f'select {caps} | {mtxt} | {tdim} {circuit.dim}')
             meta.append((impl, want, {
                 'section': 'select', 'radixes': list(radixes),
                 'ops': [[k, list(l)] for k, l in ops], 'method': repr(method),
-                'gate_caps': caps}))
-            ck.count(('select', tuple(radixes), tuple(ops), mtxt))
+                'gate_caps': caps, 'target_kind': tk,
+                'target_radixes': trad}))
+            ck.count(('select', tuple(radixes), tuple(ops), mtxt, tk, tdim))
             ck.bump('selection_cases', mk)
             ck.bump('selection_outcomes', impl)
     finally:
@@ -1825,12 +1840,6 @@ def section_setparams(R: Run, ncases: int):
 
 
 # ................................................................ malformed
-REPRO_DIM = (
-    "c = Circuit(2); c.append_gate(U3Gate(), 0); "
-    "c.append_gate(CNOTGate(), (0, 1)); "
-    "c.instantiate(UnitaryMatrix(np.eye(2)))")
-
-
 @contextlib.contextmanager
 def quiet_stderr():
     """Silence fd 2 (Rust panic messages of the engine) for a moment."""
@@ -1846,8 +1855,38 @@ def quiet_stderr():
         os.close(saved)
 
 
-def _dim_mismatch_child(conn):
-    from bqskit.ir.gates import U3Gate, CNOTGate
+DIM_PROBES = [
+    # (target kind, qudits of the target, method) for a 2-qubit circuit
+    ('U', 1, 'default'), ('U', 3, 'default'), ('S', 1, 'default'),
+    ('S', 3, 'default'), ('Y', 1, 'default'), ('Y', 3, 'default'),
+    ('U', 1, 'lbfgs'), ('S', 1, 'scipy'), ('U', 1, 'qfactor'),
+    ('U', 3, 'by-name'),
+]
+
+
+def _dim_probe_target(kind, nq, seed):
+    from bqskit.qis.state.state import StateVector
+    from bqskit.qis.state.system import StateSystem
+    nrng = np.random.default_rng(seed)
+    dim = 2 ** nq
+    W = rand_unitary(nrng, dim)
+    if kind == 'U':
+        return UnitaryMatrix(W, [2] * nq, False)
+    if kind == 'S':
+        return StateVector(W[:, 0], [2] * nq, False)
+    E = np.eye(dim, dtype=np.complex128)
+    return StateSystem({StateVector(E[:, j], [2] * nq, False):
+                        StateVector(W[:, j], [2] * nq, False)
+                        for j in range(min(2, dim))})
+
+
+def _dim_mismatch_child(conn, kind, nq, method, seed):
+    """Runs in a forked child: before /repo e23425b the engine panicked
+    inside the optimiser callback and killed the interpreter (SIGABRT)."""
+    from bqskit.ir.gates import U3Gate, CNOTGate, VariableUnitaryGate
+    from bqskit.ir.opt.cost.functions import HilbertSchmidtCostGenerator
+    from bqskit.ir.opt.instantiaters import Minimization
+    from bqskit.ir.opt.minimizers import LBFGSMinimizer, ScipyMinimizer
     os.dup2(os.open(os.devnull, os.O_WRONLY), 2)
     try:
         import resource
@@ -1855,15 +1894,47 @@ def _dim_mismatch_child(conn):
     except Exception:
         pass
     c = Circuit(2)
-    c.append_gate(U3Gate(), 0)
-    c.append_gate(CNOTGate(), (0, 1))
+    if method == 'qfactor':
+        c.append_gate(VariableUnitaryGate(1), 0)
+        c.append_gate(VariableUnitaryGate(2), (0, 1))
+    else:
+        c.append_gate(U3Gate(), 0)
+        c.append_gate(CNOTGate(), (0, 1))
+        c.append_gate(U3Gate(), 1)
+    m = {'default': None, 'qfactor': 'qfactor', 'by-name': 'Minimization',
+         'lbfgs': Minimization(HilbertSchmidtCostGenerator(),
+                               LBFGSMinimizer()),
+         'scipy': Minimization(HilbertSchmidtCostGenerator(),
+                               ScipyMinimizer())}[method]
+    p0 = np.array(c.params)
     try:
-        c.instantiate(UnitaryMatrix(np.eye(2)))
-        conn.send('RETURNED')
+        c.instantiate(_dim_probe_target(kind, nq, seed), method=m,
+                      multistarts=2)
+        out = 'RETURNED'
     except ValueError:
-        conn.send('VALUEERROR')
+        out = 'VALUEERROR'
     except BaseException as e:
-        conn.send('OTHER ' + type(e).__name__)
+        out = 'OTHER ' + type(e).__name__
+    if not np.array_equal(p0, np.array(c.params)):
+        out += ' params-changed'
+    conn.send(out)
+
+
+def dim_probe(kind, nq, method, seed):
+    import multiprocessing as mp
+    ctx = mp.get_context('fork')
+    rx, tx = ctx.Pipe(duplex=False)
+    pr = ctx.Process(target=_dim_mismatch_child,
+                     args=(tx, kind, nq, method, seed))
+    pr.start()
+    tx.close()
+    pr.join(180)
+    if pr.is_alive():
+        pr.kill()
+        return 'timeout'
+    if pr.exitcode == 0 and rx.poll():
+        return rx.recv()
+    return f'exit {pr.exitcode}'
 
 
 def section_malformed(R: Run):
@@ -1919,31 +1990,26 @@ def section_malformed(R: Run):
             R.bad('instantiate-argument-contract',
                   f'Circuit.instantiate(**{kw}) must raise {want.__name__} '
                   f'and leave the circuit alone, got {out}', {'kwargs': str(kw)})
-    # documented: ValueError if the target dimension does not match - run in
-    # a forked child because the engine aborts the interpreter
-    import multiprocessing as mp
-    ctx = mp.get_context('fork')
-    rx, tx = ctx.Pipe(duplex=False)
-    pr = ctx.Process(target=_dim_mismatch_child, args=(tx,))
-    pr.start()
-    tx.close()
-    pr.join(120)
-    if pr.is_alive():
-        pr.kill()
-        status = 'timeout'
-    elif pr.exitcode == 0 and rx.poll():
-        status = rx.recv()
-    else:
-        status = f'exit {pr.exitcode}'
-    ck.coverage['dimension_mismatch_instantiate'] = status
-    if status != 'VALUEERROR':
-        R.bad('instantiate-target-dimension-mismatch-' + (
-            'aborts-process' if status.startswith('exit') else
-            status.lower().replace(' ', '-')),
-            'Circuit.instantiate documents "ValueError: If target dimension '
-            'doesn\'t match with circuit"; Circuit(2).instantiate(<1-qubit '
-            f'unitary>) ends with {status} (child process)',
-            {'script': REPRO_DIM, 'status': status})
+    # documented (and since /repo e23425b implemented): ValueError if the
+    # target dimension does not match.  Every probe runs in a forked child
+    # because without that check the engine aborts the interpreter.
+    names = {'U': 'unitary', 'S': 'state', 'Y': 'system'}
+    for kind, nq, method in DIM_PROBES:
+        status = dim_probe(kind, nq, method, rng.randrange(1 << 30))
+        ck.bump('dimension_mismatch_instantiate',
+                f'{names[kind]}/{nq}q/{method}:{status}')
+        ck.count(('dim-probe', kind, nq, method))
+        if status != 'VALUEERROR':
+            how = ('aborts-process' if status.startswith('exit') else
+                   status.lower().replace(' ', '-'))
+            R.bad(f'instantiate-target-dimension-mismatch-{names[kind]}-'
+                  f'{how}',
+                  'Circuit.instantiate documents "ValueError: If target '
+                  'dimension doesn\'t match with circuit": a 2-qubit circuit '
+                  f'instantiated (method {method}) against a {nq}-qubit '
+                  f'{names[kind]} target ends with "{status}" (forked child)',
+                  {'section': 'dimension-mismatch', 'target_kind': kind,
+                   'target_qubits': nq, 'method': method, 'status': status})
 
 
 # ---------------------------------------------------------------------- run
